@@ -160,7 +160,9 @@ struct Slot {
     uint64_t st_boundary = 0;         // boundary at which the last edge was observed
     uint64_t idle_since_gseq = 0;
     uint64_t eval_changed_gseq = 0;
+    bool armed_dereg = false;   // harness: the next event handler invocation of this module ends by deregistering it (op 'arm_dereg')
     bool start_refused_pending = false;
+    bool start_refused_due = false;   // the start callback refused while the module was RUNNING/PAUSED: the next look at it must find it stopped
     std::vector<uint64_t> oneshot_fired;
     uint64_t c08_last_send_gseq = 0;
     long c08_last_send_id = -1;
